@@ -63,4 +63,74 @@ ENTRIES["C14"] = {
              "tolerance 1 us as stated. Bounds: <= 4 ops exhaustively over 3 names, <= 25 ops at random over 4 names."),
 }
 
+ENTRIES["C11"] = {
+    "level": "model_checking",
+    "technique": "TLA+ spec (Registry) model-checked by TLC; TLC-generated op sequences executed on real sockets/acceptors; traces incl. end-of-run probes validated by TLC (TraceRegistry)",
+    "text": ("spec/Registry.tla is the reference registry (exclusive binds per protocol, error codes, wildcard resolution, any free "
+             "ephemeral port, release on close/destroy/re-open, transfer on move). TLC checks exclusivity/consistency on the bounded "
+             "model and generates op sequences (exhaustive for 2 ops, random walks of 9, one 192 600-op walk through the ephemeral "
+             "wrap); every result and local_endpoint() after every step, and who answers datagrams/connects on every endpoint "
+             "ever used, must match the spec."),
+    "note": ("Trusted: TLC; harness/record_registry.cpp. A successful re-bind of a bound socket is unspecified and not executed. "
+             "Bounds: 6 sockets + 3 move targets on 2 nodes, ports {0,80,2000,2001}."),
+}
+UDP_NOTE = ("Trusted: TLC; harness/record_udp.cpp + world.hpp (scripted topology, probes at first and last hop). Time unit 10 ns. "
+            "Bounds: 6 sockets on 3 nodes, <= 40 ops per random program, one 12 000-datagram drain program per 1000.")
+ENTRIES["C08"] = {
+    "level": "model_checking",
+    "technique": "TLA+ spec (Udp) model-checked by TLC; TLC random walks + seeded programs executed on real UDP sockets; traces validated by TLC (TraceUdp)",
+    "text": ("spec/Udp.tla binds every datagram at send time to the holder of the destination endpoint and its incarnation and keeps "
+             "it in exactly one place (in flight, queued, read, discarded for a stated reason); TLC checks ledger/at-most-once/"
+             "account invariants on a closed model with close/re-open/rebind racing arrivals, and validates recorded runs: send_to "
+             "results (invalid_argument, message_size, would_block band), arrivals, per-route FIFO, truncation, sender endpoint, "
+             "no pending receive with a datagram queued at quiescence."),
+    "note": UDP_NOTE,
+}
+TCP_NOTE = ("Trusted: TLC; harness/record_tcp.cpp (scripted endpoints, probes on first/last hop, drop-notification wrapper, ctl hop "
+            "for injected drops/delays). The service-level spec leaves write acceptance, retransmission instants and the window "
+            "open. Bounds: <= 3 connections, <= 120 segments per stream in quick runs.")
+ENTRIES["C05"] = {
+    "level": "model_checking",
+    "technique": "TLA+ specs (TcpFlow model-checked incl. safety of prefix/EOF; Tcp service spec) ; recorded TCP traces validated by TLC (TraceTcp)",
+    "text": ("Every block handed to a reader is located by the harness in the PRF streams; spec/Tcp.tla accepts it only if it is "
+             "the next block of the peer's stream of the same connection, within the in-order bytes that arrived; EOF only after all "
+             "of them; segments must be consecutive, retransmissions only of segments reported dropped; a reused socket object "
+             "starts a fresh stream. Exhaustive drop/delay patterns over the first four segments plus random lossy runs."),
+    "note": TCP_NOTE,
+}
+ENTRIES["C06"] = {
+    "level": "model_checking",
+    "technique": "TLC liveness check of the implementation-shaped model TcpFlow under weak fairness; quiescence conditions checked by TLC on every recorded run (TraceTcp End event)",
+    "text": ("Design level: TcpFlow.tla (loss, re-send list, reorder buffer, blocked writes) satisfies 'every accepted byte becomes "
+             "deliverable' under weak fairness without a state constraint. Code level: every recorded run ends with run() returning; "
+             "TLC accepts the End event only if no read is pending with data queued, no writer is blocked with nothing in flight, no "
+             "dropped segment waits unsent, everything written reached a reader that keeps reading and every connect with an accept "
+             "outstanding completed."),
+    "note": TCP_NOTE + " Route configurations follow the quantifier; payload flows one direction at a time when a queue is finite.",
+}
+ENTRIES["C07"] = {
+    "level": "model_checking",
+    "technique": "TLA+ spec (Tcp: listen/SYN queue/accept matching/endpoints) ; recorded traces validated by TLC (TraceTcp)",
+    "text": ("Connect succeeds only towards a listening endpoint; SYN arrival order is matched with accepts one to one for the three "
+             "accept forms; refusal strictly later than the call and remote_endpoint = not_connected afterwards; the four endpoint "
+             "equations; delivered bytes must belong to the stream of the same pair."),
+    "note": TCP_NOTE,
+}
+ENTRIES["C13"] = {
+    "level": "model_checking",
+    "technique": "TLA+ specs (Udp, Tcp: Visible()) ; recorded UDP and TCP traces with NAT hops validated by TLC",
+    "text": ("Visible(ep) = (external address, original port) for senders behind a NAT; every UDP sender endpoint, accepted socket "
+             "remote endpoint and accept peer endpoint in the recorded runs must equal it, connectors must see the dialled endpoint, "
+             "local endpoints stay real; placements: none, client, acceptor side, both, two nodes behind one address."),
+    "note": UDP_NOTE + " " + TCP_NOTE,
+}
+ENTRIES["C20"] = {
+    "level": "model_checking",
+    "technique": "TLA+ specs (Tcp: MSS per connection; Udp: don't-fragment rule) ; recorded traces validated by TLC",
+    "text": ("Every first-hop payload segment must satisfy len <= MSS fixed at connect time from the configuration's path MTU, in both "
+             "directions, and reach the last hop with the same sequence number, length and digest; oversize datagrams with DF are "
+             "reported sent and never arrive, without DF arrive whole, within the MTU are unaffected."),
+    "note": UDP_NOTE + " " + TCP_NOTE + " MTU tables symmetric in the address pair.",
+}
+
 NOT_APPLICABLE = {}
